@@ -49,6 +49,10 @@ def gen_tree(rng, max_nodes=10, links=True):
                 else: target = "missing-target"
             nodes.append((rel, "l", target))
         used.add(rel)
+    # every directory gets a uniquely named marker file, so that a listing identifies the directory it shows
+    for i, (rel, kind, payload) in enumerate(list(nodes)):
+        if kind == "d":
+            nodes.append((rel + "/zz-dirid-%d" % i, "f", ("SENTINEL-DIRID-%d" % i).encode()))
     return nodes
 
 def build(tmp, nodes):
